@@ -7,7 +7,7 @@ PROP = dict(
           "(older, newer, sibling), creates and updates under the active version, exchanges of all commits between the nodes in both directions (also before the receiver knows the version the commits were written under). "
           "After every schema operation: same documents, same values for every field the old and new active version share, same commit history, exactly one active version, and incoming commits are merged under the "
           "version requests use (implementation-only oracles); every dump (active version, its fields, every document) is compared with the model; after the final exchanges the nodes must agree on every field "
-          "both active versions have; a case is one history; distinct = distinct histories"),
+          "both active versions have; a case is one history; distinct = distinct histories; in cases with an odd number commits are delivered through the node's event bus (merge request / merge complete) instead of the merge entry point; a directed case delivers a commit, patches both nodes, and delivers a commit that writes the added field"),
     assumptions=[
         "only add-field patches (the statement's scope); field kinds String; no lens migrations (wasm modules are not available offline)",
         "values are equal-length strings so that the register tie-break on encoded bytes is the order of the model's numbers",
